@@ -134,21 +134,25 @@ Record gparams := {
   g_extend : bool
 }.
 
-Record gstate := { g_live : list node; g_off : nat; g_pidx : option nat; g_prev : option node;
+Record gstate := { g_live : list node;
+                   g_off : Z  (* tidx_offset: a Python int; `tidx_offset += to_idx - from_idx` can be
+                                 negative (group_assignment), so it is an integer, not a natural *);
+                   g_pidx : option nat; g_prev : option node;
                    g_rec : list bool (* reversed: was the snapshot token eligible for recursion *) }.
 
 (* One pass of the loop over the snapshot.  Recursion into child groups is not performed here;
    the loop records for which snapshot positions the Python code reaches the recursive call
-   (tidx >= 0 and not whitespace). *)
+   (tidx >= 0 and not whitespace).
+   tidx = idx - tidx_offset is computed in Z; `if tidx < 0: continue`. *)
 Fixpoint group_loop (p : gparams) (snap : list node) (idx : nat) (s : gstate) : res gstate :=
   match snap with
   | [] => Ok s
   | token :: snap' =>
-      if Nat.ltb idx (g_off s)
+      if Z.ltb (Z.of_nat idx - g_off s) 0
       then group_loop p snap' (S idx) {| g_live := g_live s; g_off := g_off s; g_pidx := g_pidx s;
                                          g_prev := g_prev s; g_rec := false :: g_rec s |}
       else
-      let tidx := idx - g_off s in
+      let tidx := Z.to_nat (Z.of_nat idx - g_off s) in
       if is_ws token
       then group_loop p snap' (S idx) {| g_live := g_live s; g_off := g_off s; g_pidx := g_pidx s;
                                          g_prev := g_prev s; g_rec := false :: g_rec s |}
@@ -165,9 +169,9 @@ Fixpoint group_loop (p : gparams) (snap : list node) (idx : nat) (s : gstate) : 
             if g_vprev p pv && g_vnext p next_ then
               '(live1, from_idx, to_idx) <- g_post p (g_live s) pidx tidx nidx ;;
               '(live2, grp) <- group_tokens (g_cls p) from_idx (S to_idx) (g_extend p) live1 ;;
-              if Nat.ltb to_idx from_idx then Err Stuck else
               group_loop p snap' (S idx)
-                         {| g_live := live2; g_off := g_off s + (to_idx - from_idx);
+                         {| g_live := live2;
+                            g_off := (g_off s + (Z.of_nat to_idx - Z.of_nat from_idx))%Z;
                             g_pidx := Some from_idx; g_prev := Some grp; g_rec := recs |}
             else group_loop p snap' (S idx) plain
         | _, _ => group_loop p snap' (S idx) plain
@@ -176,7 +180,7 @@ Fixpoint group_loop (p : gparams) (snap : list node) (idx : nat) (s : gstate) : 
   end.
 
 Definition ginit (l : list node) : gstate :=
-  {| g_live := l; g_off := 0; g_pidx := None; g_prev := None; g_rec := [] |}.
+  {| g_live := l; g_off := 0%Z; g_pidx := None; g_prev := None; g_rec := [] |}.
 
 (* _group(tlist, cls, ...) with recurse=True: the children the loop reaches are processed
    recursively (same parameters), then the loop runs on the result. *)
